@@ -30,18 +30,19 @@ func runTool(env []string, stdout *bytes.Buffer, name string, args ...string) (s
 
 // runToolStdin feeds the tool through a pipe on its standard input (not a regular file: size 0, not seekable)
 func runToolStdin(stdin []byte, env []string, stdout *bytes.Buffer, name string, args ...string) (string, error) {
-	toolStdin = stdin
-	defer func() { toolStdin = nil }()
-	return runToolIn("", env, stdout, name, args...)
+	return runToolFull("", stdin, env, stdout, name, args...)
 }
 
-var toolStdin []byte
-
 func runToolIn(dir string, env []string, stdout *bytes.Buffer, name string, args ...string) (string, error) {
+	return runToolFull(dir, nil, env, stdout, name, args...)
+}
+
+// (no package-level state here: a case that overran its deadline keeps running while the next one starts)
+func runToolFull(dir string, stdin []byte, env []string, stdout *bytes.Buffer, name string, args ...string) (string, error) {
 	cmd := exec.Command(filepath.Join(binDir(), name), args...)
 	cmd.Dir = dir
-	if toolStdin != nil {
-		cmd.Stdin = io.MultiReader(bytes.NewReader(toolStdin)) // not an *os.File: exec hands the tool a pipe
+	if stdin != nil {
+		cmd.Stdin = io.MultiReader(bytes.NewReader(stdin)) // not an *os.File: exec hands the tool a pipe
 	}
 	var se bytes.Buffer
 	if stdout != nil {
